@@ -522,6 +522,8 @@ CHECKS = {
             {"name": "TestC18Enumerated", "kind": "plain", "quick": 1, "thorough": 1, "shards": {"quick": 1, "thorough": 1}},
             {"name": "TestC18Concurrent", "quick": 320, "thorough": 6400, "shards": {"quick": 16, "thorough": 16}},
             {"name": "TestC18Leader", "quick": 240, "thorough": 6400},
+            # (without the race detector: rebuilding 67200 rows under it takes minutes)
+            {"name": "TestC18Large", "kind": "plain", "race": False, "quick": 1, "thorough": 1, "shards": {"quick": 1, "thorough": 1}},
         ],
     },
     "C20": {
